@@ -696,6 +696,7 @@ bool dispatch_api(State& st, const std::string& op, const json& a, json& ret)
         for (auto& [h, t] : st.tracks) st.ids.insert(t.id());
         for (auto& [h, c] : st.crates) st.ids.insert(c.id());
         json before = observe_all(st, a);
+        if (st.lib) before["tables"] = observe_tables(st, a);
         std::map<std::string, int64_t> th, ch;
         for (auto& [h, t] : st.tracks)
             if (t.is_valid()) th[h] = t.id();
@@ -730,7 +731,9 @@ bool dispatch_api(State& st, const std::string& op, const json& a, json& ret)
             if (c) st.crates.insert_or_assign(h, *c);
         }
         ret["before"] = before;
-        ret["after"] = observe_all(st, a);
+        json after = observe_all(st, a);
+        if (st.lib) after["tables"] = observe_tables(st, a);
+        ret["after"] = after;
         return true;
     }
     if (op == "file_digest")
@@ -767,7 +770,9 @@ bool dispatch_api(State& st, const std::string& op, const json& a, json& ret)
         int code = a.value("code", 13);
         long long max_k = a.value("max_k", 400LL);
         json oa = a.value("observe", json::object());
+        bool with_tables = a.value("tables", false);
         json obs0 = observe_all(st, oa);
+        if (with_tables) obs0["tables"] = observe_tables(st, oa);
         // the sets of names / paths / ids to probe must not differ between the observations compared
         auto names0 = st.names;
         auto paths0 = st.paths;
@@ -830,6 +835,7 @@ bool dispatch_api(State& st, const std::string& op, const json& a, json& ret)
             st.paths = paths0;
             st.ids = ids0;
             json obs = observe_all(st, oa);
+            if (with_tables) obs["tables"] = observe_tables(st, oa);
             bool same = obs == obs0;
             r["same"] = same;
             bool bad = !threw || !same || txn != 0;
